@@ -287,18 +287,19 @@ def rules(fx, rep):
             why = '%d conditional negations on the returning path' % len(negs)
             if okneg:
                 _, yplace, sg, nwhere = negs[0]
-                okneg = isinstance(sg, tuple) and sg[0] == 'xor'
+                # decided by value in the sign algebra: the condition is  sgn0(a) ^ sgn0(b)  (no constant term) with a the
+                # affine y (before scaling by the denominator, without its sign) and b the input t
+                okneg = isinstance(sg, exp.SBit) and len(sg.atoms) == 2 and sg.c == 0
+                why = 'the negation condition is %r, not sgn0(y) ^ sgn0(t)' % (sg,)
                 if okneg:
-                    parts = [sg[1], sg[2]]
-                    ys = [p_ for p_ in parts if isinstance(p_, tuple) and p_[0] == 'sgn0' and p_[1] == yplace]
-                    ts = [p_ for p_ in parts if isinstance(p_, tuple) and p_[0] == 'sgn0' and (p_[1] == (('*', 1), ()) and not (ys and p_ is ys[0]) or (isinstance(p_[3], Lin) and p_[3] == at('t')))]
-                    okneg = len(ys) == 1 and len(ts) == 1
-                    why = 'negate_if argument is not sgn0(y) ^ sgn0(t)'
-                    if okneg:
-                        # sgn0 must be taken of the *affine* y (before scaling by the denominator)
-                        yv = subst(ys[0][3], rel) if isinstance(ys[0][3], Lin) else None
-                        okneg = yv is not None and yv == mod2(y_aff.add(Lin({'sign': -1})), set())
-                        why = 'sgn0 is taken of %r, which is not the affine y (%r without its sign)' % (yv, y_aff)
+                    infos = list(sg.atoms.values())
+                    want_y = mod2(y_aff.add(Lin({'sign': -1})), set())
+                    ts = [i_ for i_ in infos if isinstance(i_[3], Lin) and i_[3] == at('t')]
+                    ys = [i_ for i_ in infos if isinstance(i_[3], Lin) and i_ not in ts and subst(i_[3], rel) == want_y]
+                    okneg = len(ts) == 1 and len(ys) == 1
+                    if not okneg:
+                        others = [i_[3] if isinstance(i_[3], Lin) else 'an untracked value (%r)' % (i_[1],) for i_ in infos if i_ not in ts and i_ not in ys]
+                        why = 'the negation condition is not sgn0(y) ^ sgn0(t): it takes sgn0 of %s (affine y without its sign is %r, the input is t)' % (', '.join(repr(o_) for o_ in others), want_y)
             rep.check(okneg, 'WIRE', '%s:sign-fix@%d' % (g, len(false_eqs)), 'y is negated iff sgn0(y_affine) != sgn0(t), exactly once', why, where, construct=path)
             y0 = y_aff.add(Lin({'sign': -1}))
             is_first = x_aff == Lin({'x0_num': 1, 'x0_den': -1})
@@ -372,12 +373,13 @@ def rules(fx, rep):
 
 
 def merge_explicit_sign_fix(res):
-    """`if y.sgn0() != t.sgn0() { y.negate() }` is the same sign fix as `y.negate_if(y.sgn0() ^ t.sgn0())`: two paths that
-    differ only in that comparison and in the sign of the returned y are folded into one path carrying the same
-    'negate_if' event (and the symbolic sign) that the combinator form produces."""
+    """`if y.sgn0() != t.sgn0() { y.negate() }` (in any spelling: the interpreter keeps sign bits in GF(2)-affine form) is
+    the same sign fix as `y.negate_if(y.sgn0() ^ t.sgn0())`: two paths that differ only in the value of one sign bit and
+    in the sign of the returned y are folded into one path carrying the 'negate_if' event (and the symbolic sign) that the
+    combinator form produces, its condition being the bit under which y is negated."""
     def sign_label(l):
         x = l[0]
-        return isinstance(x, tuple) and len(x) >= 3 and x[0] in ('eq', 'ne') and all(isinstance(y_, tuple) and y_ and y_[0] == 'sgn0' for y_ in x[1:3])
+        return isinstance(x, tuple) and len(x) == 2 and x[0] == 'sbit' and isinstance(x[1], exp.SBit)
     groups = {}
     out = []
     for r in res:
@@ -386,35 +388,45 @@ def merge_explicit_sign_fix(res):
         if len(sl) != 1 or not isinstance(ret, exp.Agg) or len(ret.items) != 3:
             out.append(r)
             continue
-        key = repr([l for l in pth.labels if not sign_label(l)])
+        key = repr([l for l in pth.labels if not sign_label(l)]) + repr(SBit_base(sl[0][0][1]))
         groups.setdefault(key, []).append((r, sl[0]))
     for key, members in groups.items():
         if len(members) != 2:
             out.extend(m[0] for m in members)
             continue
-        def differ(l):
-            return (l[1] != 0) == (l[0][0] == 'ne')
+
+        def base_value(l):
+            taken = 1 if l[1] != 0 else 0
+            return taken ^ l[0][1].c
         a, b = members
-        if differ(a[1]) == differ(b[1]):
+        if base_value(a[1]) == base_value(b[1]):
             out.extend(m[0] for m in members)
             continue
-        neg, pos = (a, b) if differ(a[1]) else (b, a)
-        yn, yp = neg[0][1].items[1], pos[0][1].items[1]
-        same_rest = neg[0][1].items[0] == pos[0][1].items[0] and neg[0][1].items[2] == pos[0][1].items[2]
-        if not (isinstance(yn, Lin) and isinstance(yp, Lin) and same_rest and yn == yp.add(Lin({'-1': 1}))):
+        one, zero = (a, b) if base_value(a[1]) else (b, a)
+        y1, y0 = one[0][1].items[1], zero[0][1].items[1]
+        same_rest = one[0][1].items[0] == zero[0][1].items[0] and one[0][1].items[2] == zero[0][1].items[2]
+        if not (isinstance(y1, Lin) and isinstance(y0, Lin) and same_rest):
             out.extend(m[0] for m in members)
             continue
-        lab = pos[1][0]
-        sg_a, sg_b = lab[1], lab[2]
-        t_place = (('*', 1), ())
-        ysg = sg_b if sg_a[1] == t_place else sg_a
+        base = SBit_base(one[1][0][1])
+        if y1 == y0.add(Lin({'-1': 1})):
+            cond, pos = base, zero            # negated when the bit is 1
+        elif y0 == y1.add(Lin({'-1': 1})):
+            cond, pos = base.flip(), one      # negated when the bit is 0
+        else:
+            out.extend(m[0] for m in members)
+            continue
         np_ = exp.Path()
         np_.labels = [l for l in pos[0][0].labels if not sign_label(l)]
-        np_.events = list(pos[0][0].events) + [('negate_if', ysg[1], ('xor', sg_a, sg_b), lab[3] if len(lab) > 3 else None)]
+        np_.events = list(pos[0][0].events) + [('negate_if', None, cond, None)]
         items = list(pos[0][1].items)
-        items[1] = yp.add(Lin.atom('sign'))
+        items[1] = items[1].add(Lin.atom('sign'))
         out.append((np_, exp.Agg(items, pos[0][1].kind), pos[0][2]))
     return out
+
+
+def SBit_base(b):
+    return exp.SBit(b.atoms, 0)
 
 
 def check_tables(fx, rep, g, first_mults, second_mults, Z, where, path):
